@@ -180,6 +180,8 @@ func (e cliEnv) run(args []string, stdin []byte, outfile bool, exts ...string) c
 			deep += "/" + strings.Repeat("d", n)
 		}
 		cmd.Env = []string{"HOME=" + e.dir, "XDG_CACHE_HOME=" + deep, "TMPDIR=" + filepath.Join(e.dir, "tmp"), "PATH=/usr/bin:/bin", "LANG=C"}
+	case 5: // a usable cache directory, but no place for temporary files (TMPDIR names something that is not a directory)
+		cmd.Env = []string{"HOME=" + e.dir, "XDG_CACHE_HOME=" + filepath.Join(e.dir, "cache"), "TMPDIR=/dev/null/tmp", "PATH=/usr/bin:/bin", "LANG=C"}
 	case 3: // a cache directory given relative to the working directory, another locale
 		cmd.Env = []string{"HOME=" + e.dir, "XDG_CACHE_HOME=cache-rel", "TMPDIR=" + filepath.Join(e.dir, "tmp"), "PATH=/usr/bin:/bin", "LANG=de_DE.UTF-8", "LC_ALL=de_DE.UTF-8", "TZ=Pacific/Kiritimati"}
 	}
